@@ -20,7 +20,7 @@ def run(chk: Check):
                         "the Leibniz theorem of FockTheorems.tla (model-checked) identifies <psi|L|phi> with the "
                         "logarithmic derivative of the overlap along exp(xL)"]
     theorems(chk)
-    insts = wfcheck.plan(chk, wf.ALL_KINDS, chk.tier, chk.seed + 2, want=("fb",), nw=3)
+    insts = wfcheck.plan(chk, wf.ALL_KINDS, chk.tier, chk.seed + 2, want=("fb",), nw=4)
     res, skipped = wfcheck.tlc_eval_robust(chk, insts, "c03")
     chk.note("skipped_overflow", skipped)
     for I in insts:
@@ -29,6 +29,9 @@ def run(chk: Check):
         ex = wf.exact_values(I, res[I["id"]])
         got = wfcheck.lib_eval(I, "fb")
         wfcheck.compare(chk, I, ex, got, "fb", wfcheck.TOL64, "forcebias", tag="/library")
+        chk.traces += 1
+        # "for every walker": the batched evaluation (two batches of two pairwise different walkers) must give each walker ITS value
+        wfcheck.compare(chk, I, ex, wfcheck.lib_eval(I, "fb", n_batch=2), "fb", wfcheck.TOL64, "forcebias-batched", tag="/n_batch=2")
         chk.traces += 1
         J = wfcheck.previous_like(insts, I)
         if J is not None:       # the same evaluation on dictionaries that were prepared for another problem before
